@@ -343,7 +343,7 @@ def kani_group(crate, harnesses, scratch, jobs, tier):
         for f in h.get('flags', []):
             flags.add(f)
     tgt = os.path.join(CACHE, 'target-' + crate + ''.join('-' + f for f in sorted(flags)))
-    tmo = max(h.get('timeout', 600) for h in harnesses)
+    tmo = max(h.get('timeout', 1200) for h in harnesses)
     js_path = os.path.join(scratch, 'kani-%s-%d.json' % (crate, abs(hash(tuple(h['name'] for h in harnesses))) % 100000))
     cmd = ['cargo', 'kani', '-Z', 'unstable-options', '-Z', 'function-contracts', '-Z', 'stubbing']
     for f in sorted(flags):
@@ -451,8 +451,8 @@ def kani_replay(crate, h, scratch_root):
     for f in h.get('flags', []):
         cmd += ['-Z', f]
     cmd += ['--target-dir', tgt, '--exact', '--harness', h['full'], '--concrete-playback=print',
-            '--harness-timeout', '%ds' % h.get('timeout', 600)]
-    rc, o, e, w = sh(cmd, cwd=cdir, timeout=h.get('timeout', 600) + 600)
+            '--harness-timeout', '%ds' % h.get('timeout', 1200)]
+    rc, o, e, w = sh(cmd, cwd=cdir, timeout=h.get('timeout', 1200) + 600)
     out['kani_output_tail'] = (o + e)[-3000:]
     # the printed unit test
     m = re.search(r'(#\[test\]\s*fn (kani_concrete_playback_[A-Za-z0-9_]+)\(\)\s*\{.*?\n\s*\})\s*\n\s*```', o + e, flags=re.S)
@@ -708,7 +708,7 @@ def main(argv):
                 'undecided': undecided,
                 'exhaustive': False,
             },
-            'assumptions': P.get('assumptions', []),
+            'assumptions': P.get('assumptions', []) + props.GLOBAL_ASSUMPTIONS,
             'wall_s': round(wall, 1),
             'violations': len(new_viol),
         }
